@@ -36,11 +36,21 @@ func c18FlightFn(clk *c18Clock, log *c18Log, nexec *atomic.Int64, inside []atomi
 		if inside != nil {
 			inside[op.Key].Add(-1)
 		}
-		log.exec(c18Exec{ID: id, Key: op.Key, G: g, I: i, Start: st, End: en, Fail: op.A == 1})
+		log.exec(c18Exec{ID: id, Key: op.Key, G: g, I: i, Start: st, End: en, Fail: op.A == 1, Pan: op.A == 2})
+		if op.A == 2 {
+			panic(c18Panic{"flight callback"})
+		}
 		if op.A == 1 {
 			return id, c18TagErr{id}
 		}
 		return id, nil
+	}
+}
+
+func c18NotePanic(ev *c18Ev, panicked bool, foreign interface{}) {
+	ev.Pan = panicked
+	if foreign != nil {
+		ev.Foreign = fmt.Sprint(foreign)
 	}
 }
 
@@ -65,12 +75,15 @@ func c18FlightInterp(t *testing.T, c c18Case) kit.Verdict {
 			var val interface{}
 			var err error
 			ev.Inv = clk.now()
-			if op.K == "doex" {
-				val, ev.Fresh, err = sf.DoEx(c18KeyName(op.Key), fn)
-			} else {
-				val, err = sf.Do(c18KeyName(op.Key), fn)
-			}
+			pan, foreign := c18Try(func() {
+				if op.K == "doex" {
+					val, ev.Fresh, err = sf.DoEx(c18KeyName(op.Key), fn)
+				} else {
+					val, err = sf.Do(c18KeyName(op.Key), fn)
+				}
+			})
 			ev.Ret = clk.now()
+			c18NotePanic(&ev, pan, foreign)
 			ev.Val, ev.Err = c18ValTag(val), c18ErrTag(err)
 			log.ev(ev)
 		}, nil
@@ -115,6 +128,23 @@ func c18JudgeFlight(v *c18V, log *c18Log, what string, checkFresh bool) {
 		if ev.NExec > 1 {
 			v.failf("%s ran its callback %d times", name, ev.NExec)
 		}
+		if ev.Foreign != "" {
+			v.failf("%s panicked with a value no callback raised: %s", name, ev.Foreign)
+			continue
+		}
+		if ev.Pan {
+			// the executing call of a panicking callback: the panic reaches the
+			// caller; nothing else is specified for this call
+			if ev.Exec == 0 || !execByID[ev.Exec].Pan {
+				v.failf("%s panicked although its own callback did not", name)
+			}
+			v.class("callback-panicked")
+			continue
+		}
+		if ev.Exec != 0 && execByID[ev.Exec].Pan {
+			v.class("callback-panic-swallowed(unspecified)")
+			continue
+		}
 		if ev.Exec != 0 {
 			wantErr := 0
 			if ev.Op.A == 1 {
@@ -131,6 +161,31 @@ func c18JudgeFlight(v *c18V, log *c18Log, what string, checkFresh bool) {
 		v.class("shared-result")
 		if checkFresh && ev.Op.K == "doex" && ev.Fresh {
 			v.failf("%s did not execute but DoEx reported fresh=true", name)
+		}
+		if ev.Val == -1 && ev.Err == 0 {
+			// (nil, nil): what the waiters of a panicked execution get (the
+			// execution has no result; their outcome is unspecified). Legitimate
+			// only for a call that overlaps the panicking call.
+			overlapsPanicked, afterPanicked := false, 0
+			for _, e := range log.execs {
+				if !e.Pan || e.Key != ev.Op.Key {
+					continue
+				}
+				ec := callOf[e.ID]
+				if ev.Inv.S < ec.Ret.S && e.Start.S < ev.Ret.S && ev.Ret.S > e.End.S {
+					overlapsPanicked = true
+				} else if ev.Inv.S > ec.Ret.S {
+					afterPanicked = e.ID
+				}
+			}
+			if overlapsPanicked {
+				v.class("waiter-of-panicked-execution(result unspecified)")
+				continue
+			}
+			if afterPanicked != 0 {
+				v.failf("%s returned (nil, nil) without executing, after execution %d of its key had panicked and the panicking call had returned: a later call must execute afresh (the finished flight is still registered)", name, afterPanicked)
+				continue
+			}
 		}
 		e, ok := execByID[ev.Val]
 		if !ok {
@@ -179,6 +234,16 @@ func c18JudgeFlight(v *c18V, log *c18Log, what string, checkFresh bool) {
 			if ev.Op.Key != e.Key || ev.Exec == e.ID {
 				continue
 			}
+			if e.Pan {
+				if ec := callOf[e.ID]; ev.Inv.S > ec.Ret.S && ec.Ret.S != 0 {
+					v.class("call-after-panicked-execution")
+				}
+				if ev.Inv.S > e.Start.S && ev.Inv.T < e.End.T {
+					v.nt = true
+					v.class("arrival-during-held-panicking-execution")
+				}
+				continue // what overlapping callers of a panicking execution get is unspecified
+			}
 			if ev.Inv.S > e.Start.S && ev.Inv.T < e.End.T {
 				v.nt = true
 				v.class("arrival-during-held-execution")
@@ -197,9 +262,7 @@ func c18JudgeFlight(v *c18V, log *c18Log, what string, checkFresh bool) {
 func c18FlightGen(rt *rapid.T) c18Case {
 	return c18Case{Gs: c18GenGs(rt, 4, func(rt *rapid.T, burst bool) c18Op {
 		op := c18Op{K: rapid.SampledFrom([]string{"do", "do", "doex"}).Draw(rt, "k"), Key: c18Key(rt), H: c18Hold(rt)}
-		if rapid.IntRange(0, 4).Draw(rt, "fail") == 0 {
-			op.A = 1
-		}
+		op.A = c18Outcome(rt)
 		return op
 	})}
 }
@@ -224,9 +287,12 @@ func c18LockedInterp(t *testing.T, c c18Case) kit.Verdict {
 		return func(g, i int, op c18Op) {
 			ev := c18Ev{G: g, I: i, Op: op}
 			fn := c18FlightFn(clk, log, &nexec, inside, &overlap, g, i, op, &ev)
+			var val interface{}
+			var err error
 			ev.Inv = clk.now()
-			val, err := lc.Do(c18KeyName(op.Key), fn)
+			pan, foreign := c18Try(func() { val, err = lc.Do(c18KeyName(op.Key), fn) })
 			ev.Ret = clk.now()
+			c18NotePanic(&ev, pan, foreign)
 			ev.Val, ev.Err = c18ValTag(val), c18ErrTag(err)
 			log.ev(ev)
 		}, nil
@@ -237,8 +303,25 @@ func c18LockedInterp(t *testing.T, c c18Case) kit.Verdict {
 	// every call executes exactly once and receives its own result
 	for _, ev := range log.evs {
 		name := fmt.Sprintf("locked-calls call g%d#%d(key %d)", ev.G, ev.I, ev.Op.Key)
+		if ev.Foreign != "" {
+			v.failf("%s panicked with a value no callback raised: %s", name, ev.Foreign)
+			continue
+		}
 		if ev.NExec != 1 {
 			v.failf("%s ran its callback %d times, want exactly once", name, ev.NExec)
+			continue
+		}
+		if ev.Op.A == 2 {
+			// panicking callback: the panic reaches the caller (or is swallowed:
+			// unspecified); the call has executed, nothing more is specified
+			v.class("callback-panicked")
+			if ev.Pan {
+				v.class("panic-reached-caller")
+			}
+			continue
+		}
+		if ev.Pan {
+			v.failf("%s panicked although its own callback did not", name)
 			continue
 		}
 		wantErr := 0
@@ -262,6 +345,9 @@ func c18LockedInterp(t *testing.T, c c18Case) kit.Verdict {
 			}
 		}
 		for _, ev := range log.evs {
+			if a.Pan && ev.Op.Key == a.Key && ev.Inv.S > a.End.S {
+				v.class("call-after-panicked-execution")
+			}
 			if ev.Op.Key == a.Key && ev.Exec != a.ID && ev.Inv.S > a.Start.S && ev.Inv.T < a.End.T {
 				v.nt = true
 				v.class("arrival-during-held-execution")
@@ -293,9 +379,7 @@ func c18ExecOf(log *c18Log, id int) (c18Exec, bool) {
 func c18LockedGen(rt *rapid.T) c18Case {
 	return c18Case{Gs: c18GenGs(rt, 4, func(rt *rapid.T, burst bool) c18Op {
 		op := c18Op{K: "do", Key: c18Key(rt), H: c18Hold(rt)}
-		if rapid.IntRange(0, 4).Draw(rt, "fail") == 0 {
-			op.A = 1
-		}
+		op.A = c18Outcome(rt)
 		return op
 	})}
 }
@@ -344,7 +428,10 @@ func c18ManagerInterp(t *testing.T, c c18Case) kit.Verdict {
 					st := clk.now()
 					c18Sleep(op.H)
 					en := clk.now()
-					log.exec(c18Exec{ID: id, Key: op.Key, G: g, I: i, Start: st, End: en, Fail: op.A == 1})
+					log.exec(c18Exec{ID: id, Key: op.Key, G: g, I: i, Start: st, End: en, Fail: op.A == 1, Pan: op.A == 2})
+					if op.A == 2 {
+						panic(c18Panic{"resource creator"})
+					}
 					if op.A == 1 {
 						return nil, c18TagErr{id}
 					}
@@ -354,9 +441,15 @@ func c18ManagerInterp(t *testing.T, c c18Case) kit.Verdict {
 					mu.Unlock()
 					return cl, nil
 				}
+				var r io.Closer
+				var err error
 				ev.Inv = clk.now()
-				r, err := m.Get(c18KeyName(op.Key), create)
+				pan, foreign := c18Try(func() { r, err = m.Get(c18KeyName(op.Key), create) })
 				ev.Ret = clk.now()
+				ev.Pan = pan
+				if foreign != nil {
+					ev.Foreign = fmt.Sprint(foreign)
+				}
 				ev.Err = c18ErrTag(err)
 				ev.Val = -1
 				if cl, ok := r.(*c18Closer); ok && cl != nil {
@@ -373,6 +466,10 @@ func c18ManagerInterp(t *testing.T, c c18Case) kit.Verdict {
 	// at most one successful create per key; its resource is what every Get returns
 	resOfKey := map[int]c18Exec{}
 	for _, e := range log.execs {
+		if e.Pan {
+			v.class("panicked-create")
+			continue
+		}
 		if e.Fail {
 			v.class("failed-create")
 			continue
@@ -404,6 +501,34 @@ func c18ManagerInterp(t *testing.T, c c18Case) kit.Verdict {
 		name := fmt.Sprintf("resource-manager Get g%d#%d(key %d)", ev.G, ev.I, ev.Op.Key)
 		if ev.NExec > 1 {
 			v.failf("%s ran its creator %d times", name, ev.NExec)
+		}
+		if ev.Pan {
+			// The creator's panic reaches its caller. Callers that shared the
+			// panicked flight get (nil, nil) from the group, which Get then
+			// type-asserts: on the unchanged tree they panic too ("interface
+			// conversion: interface is nil"). The statement is silent on what the
+			// overlapping callers of a panicking creator get: tolerated, but
+			// only for calls that overlap the panicking call.
+			if ev.Exec != 0 && execByID[ev.Exec].Pan {
+				v.class("creator-panic-reached-caller")
+				continue
+			}
+			ok := false
+			for _, e := range log.execs {
+				if ec := callOf[e.ID]; e.Pan && e.Key == ev.Op.Key && ev.Exec == 0 && ev.Inv.S < ec.Ret.S && e.Start.S < ev.Ret.S {
+					ok = true
+				}
+			}
+			if ok {
+				v.class("waiter-of-panicked-creator-panics-too(unspecified,tolerated)")
+			} else {
+				v.failf("%s panicked (%s) although neither its own creator nor an overlapping creator of the key did: a later Get must create afresh", name, ev.Foreign)
+			}
+			continue
+		}
+		if ev.Exec != 0 && execByID[ev.Exec].Pan {
+			v.class("creator-panic-swallowed(unspecified)")
+			continue
 		}
 		if ev.Val == -1 {
 			v.failf("%s returned a foreign resource", name)
@@ -453,6 +578,12 @@ func c18ManagerInterp(t *testing.T, c c18Case) kit.Verdict {
 	// overlapping Gets of a key are served by the one creator in flight
 	for _, e := range log.execs {
 		for _, ev := range log.evs {
+			if e.Pan {
+				if ec := callOf[e.ID]; ev.Op.Key == e.Key && ev.Inv.S > ec.Ret.S && ec.Ret.S != 0 {
+					v.class("get-after-panicked-create")
+				}
+				continue
+			}
 			if ev.Op.Key == e.Key && ev.Exec != e.ID && ev.Inv.S > e.Start.S && ev.Inv.T < e.End.T {
 				v.nt = true
 				v.class("arrival-during-held-create")
@@ -486,9 +617,7 @@ func c18ManagerInterp(t *testing.T, c c18Case) kit.Verdict {
 func c18ManagerGen(rt *rapid.T) c18Case {
 	return c18Case{Gs: c18GenGs(rt, 4, func(rt *rapid.T, burst bool) c18Op {
 		op := c18Op{K: "get", Key: c18Key(rt), H: c18Hold(rt)}
-		if rapid.IntRange(0, 2).Draw(rt, "fail") == 0 {
-			op.A = 1
-		}
+		op.A = rapid.SampledFrom([]int{0, 0, 0, 1, 1, 2}).Draw(rt, "outcome")
 		return op
 	})}
 }
